@@ -31,6 +31,9 @@ def lower_bound(t, atoms):
     k = t[0]
     if k == 'const' and isinstance(t[1], int) and not isinstance(t[1], bool):
         return max(best, t[1])
+    if k == 'ite' and len(t) == 4:
+        # if c { a } else { b }: each arm under its own condition
+        return max(best, min(lower_bound(t[2], list(atoms) + M.lit_atoms(t[1])), lower_bound(t[3], list(atoms) + M.lit_atoms(('not', t[1])))))
     if k == 'max':
         return max(best, max(lower_bound(x, atoms) for x in t[1]))
     if k == 'min':
